@@ -12,6 +12,7 @@ import (
 	"math/rand/v2"
 	"reflect"
 	"strings"
+	"sync/atomic"
 	"testing"
 	"time"
 
@@ -59,6 +60,7 @@ var (
 // model upcaster
 type mup struct {
 	from, to string
+	ret      string // the type a routing raw upcaster actually returns (differs from the declared target)
 	label    string
 	f        func(json.RawMessage) (json.RawMessage, string, error)
 }
@@ -95,6 +97,8 @@ func (r *registry) apply(data json.RawMessage, typ string) (json.RawMessage, str
 }
 
 type failPlan struct{ label string }
+
+var routingUpcasters atomic.Int64
 
 func rawUp(label, to string, fp *failPlan) func(json.RawMessage) (json.RawMessage, string, error) {
 	return func(d json.RawMessage) (json.RawMessage, string, error) {
@@ -160,7 +164,7 @@ func (w *world) reaches(from, to string) bool {
 		}
 		seen[x] = true
 		for _, u := range w.reg.ups[x] {
-			if dfs(u.to) {
+			if dfs(u.to) || (u.ret != "" && dfs(u.ret)) {
 				return true
 			}
 		}
@@ -173,11 +177,30 @@ func (w *world) addRaw(from, to, label string) bool {
 	if from == to || w.reaches(to, from) {
 		return false
 	}
-	f := rawUp(label, to, w.fp)
+	// every fourth raw upcaster routes: it is declared from -> to but returns another name (content
+	// routing); the chain continues from the type it returned
+	ret := ""
+	if h := vk.Hash64(label, from, to); h%4 == 0 {
+		for k := range w.names {
+			alt := w.names[(int(h>>8)+k)%len(w.names)]
+			if alt != to && alt != from && alt != nV1 && alt != nV2 && alt != nV3 && !w.reaches(alt, from) {
+				ret = alt
+				break
+			}
+		}
+	}
+	target := to
+	if ret != "" {
+		target = ret
+	}
+	f := rawUp(label, target, w.fp)
 	if err := ebu.RegisterUpcastFunc(w.bus, from, to, f); err != nil {
 		panic(fmt.Sprintf("acyclic registration %s->%s rejected: %v", from, to, err))
 	}
-	w.reg.ups[from] = append(w.reg.ups[from], &mup{from: from, to: to, label: label, f: f})
+	w.reg.ups[from] = append(w.reg.ups[from], &mup{from: from, to: to, ret: ret, label: label, f: f})
+	if ret != "" {
+		routingUpcasters.Add(1)
+	}
 	return true
 }
 
@@ -347,6 +370,7 @@ func clipCalls(l []errCall) []errCall {
 func TestC17(t *testing.T) {
 	run := vk.New("C17", "chains")
 	defer run.Finish()
+	defer func() { run.Count("routing_raw_upcasters_registered", routingUpcasters.Load()) }()
 	n := run.Scale(250, 8000)
 	if run.Shard == 0 {
 		registerDuringSubscribe(run)
